@@ -27,7 +27,7 @@ ASSUMPTIONS = ASSUMPTIONS_TRANSPORT + [
     "self-test); qlog timestamps read the real clock and are not compared",
 ]
 COMPONENTS = COMPONENTS_TRANSPORT
-PLAN = plan(60, 900, ["benign", "lossy", "lossy", "hostile"])
+PLAN = plan(60, 900, ["benign", "lossy", "lossy", "hostile", "resumed"])
 
 FAULTS = ("drop", "dup", "delay", "blackout", "timer-late", "clock", "rebind")
 PROFILES = {
@@ -83,8 +83,57 @@ def clean_trace(lines):
     return [line for line in lines if not line.startswith("        ")]
 
 
+def run_resumed_pair(seed, replay):
+    """session resumption with 0-RTT (the `restart` fault), logging off vs on"""
+    from sim.harness import run_resumed
+
+    early = [((300, True), (5000, False), (1, False))[seed % 3]]
+    prof2 = {"faults": ("drop", "dup", "delay"), "t_adv_max": 2.0, "max_ops": 5}
+    keep_a, keep_b = {}, {}
+    run_resumed(seed, replay, prof2, lambda mon: [DeliveryGoal()], "resumed", early_writes=early,
+                secrets_log=False, quic_logger=False, keep=keep_a)
+    out = run_resumed(seed, replay, prof2, lambda mon: [DeliveryGoal()], "resumed", early_writes=early,
+                      secrets_log=True, quic_logger=True, keep=keep_b)
+    if out.violation is not None:
+        return out
+    for which in ("sim1", "sim2"):
+        a, b = keep_a.get(which), keep_b.get(which)
+        if a is None or b is None:
+            if (a is None) != (b is None):
+                v = Violation("c20.divergence", "resumption:%s-missing" % which,
+                              "with logging %s the second connection did not even start" % (
+                                  "enabled" if b is None else "disabled"))
+                out.violation = violation_dict(v)
+            break
+        if b.api_exception and not a.api_exception:
+            who, name, etype, where, msg = b.api_exception
+            v = Violation("c20.raised-with-logging", "%s@%s" % (etype, where),
+                          "resumption/0-RTT scenario: with logging enabled %s.%s() raised %s at %s (%s); without "
+                          "logging the same inputs did not" % (who, name, etype, where, msg))
+            out.violation = violation_dict(v, b.k)
+            break
+        ta, tb = clean_trace(a.k.trace_lines), clean_trace(b.k.trace_lines)
+        if ta != tb:
+            i = 0
+            while i < min(len(ta), len(tb)) and ta[i] == tb[i]:
+                i += 1
+            la = ta[i] if i < len(ta) else "<end>"
+            lb = tb[i] if i < len(tb) else "<end>"
+            kind = (lb.split(" ")[2:3] or la.split(" ")[2:3] or ["?"])[0]
+            v = Violation("c20.divergence", "resumption:first-difference:%s" % kind,
+                          "resumption/0-RTT scenario (%s): executions with logging off and on diverge at event %d: "
+                          "off: %r / on: %r" % (which, i, la, lb))
+            out.violation = violation_dict(v, b.k)
+            break
+    if out.violation is not None:
+        out.summary["reason"] = "violation"
+    return out
+
+
 def run_one(seed, tier="quick", variant=None, replay=None):
     variant = variant or "lossy"
+    if variant == "resumed":
+        return run_resumed_pair(seed, replay)
     prof = PROFILES[variant]
     hostile = bool(prof.get("hostile"))
     out = Outcome(seed)
